@@ -98,6 +98,9 @@ Json plan_to_json(const Plan &p);
 bool plan_from_json(const Json &j, Plan &p, std::string *err);
 uint64_t plan_hash(const Plan &p);
 std::vector<std::string> split_lines(const std::string &text);
+// a path of exactly `len` characters under /sim whose components stay below NAME_MAX; the directories it runs through are
+// added to the world (kind 2), so the path is creatable (and, if `exists_as` >= 0, names a file of that kind holding `data`)
+std::string long_path(World &w, long len, const char *stem, bool make_dirs = true);
 
 // ---- generators -------------------------------------------------------------------------------
 struct GenParams {
